@@ -21,7 +21,7 @@ Inject(x) == /\ plain
              /\ plain' = FALSE
              /\ r' = FromNative(x)
 
-Next == \E x \in {y \in Mutants(v, NonPlain, {}) : ~IsPlain(y)} : Inject(x)
+Next == \E x \in {y \in Mutants(v, NonPlain, {}) : HasForeign(y)} : Inject(x)
 
 C14_AcceptsItsValue == plain => (r.ok /\ Conforms(r.s, v))
 
